@@ -25,6 +25,22 @@ WORLD_NOTE = ('Modelled not verified: the dependency check inside BoundRoute.__i
               'application and of every Route object look for. ')
 
 CLAIMED = {
+ 'C15': dict(
+   text=('Theorems (Props/C15.v) over Model/Mw.v (each built-in middleware\'s request function as a transformer of the inner '
+         'outcome; zlib a section variable with the premise decompress(compress x) = x): gzip, HTTP cache (no matching client '
+         'validator), stats, profiler without trigger, signed cookie, context processor, GET/POST parameter extractors and '
+         'script root leave status and decoded body unchanged for every inner outcome (Response, streamed, already encoded, '
+         'HTTPException without the Response mixins, raised exception); any stack of them is transparent; when gzip encodes, '
+         'Content-Length is the number of bytes sent, Vary names Accept-Encoding and the client accepted gzip; a client that does '
+         'not accept gzip gets the body unchanged. The decision structure of the request functions (early-return conditions and '
+         'effects of gzip, the hasattr guard of the cache middleware, the try/except/finally shape of stats, the profiler trigger '
+         'test) is REGENERATED from the sources and pinned by reflexivity obligations. Tie: with/without differential runs over a '
+         'scenario application incl. stacks; every gzip body is actually decompressed; the gzip decision vs the extracted model.'),
+   note=COMMON_NOTE + 'Modelled not verified: zlib (premise), werkzeug Accept-Encoding parsing / user-agent detection / ETag and '
+        'make_conditional, boltons gzip_bytes; a 500 page quotes the traceback (frames differ with middlewares installed): only its '
+        'status is compared; client validators are not sent.',
+   technique='Coq proof (case analysis of the middleware transformers under a lossless-compression premise; induction over stacks) + translator-pinned decision structure + with/without differential check',
+   design='6/C15'),
  'C14': dict(
    text=('Theorems (Props/C14.v) over a Gallina transcription of os.path.normpath (POSIX), find_file and the decision '
          'structure of build_file_response/get_file_response with an oracle answering (or failing) every filesystem call: '
